@@ -64,7 +64,7 @@ PROPS = {
 
     'C02': _p(lambda t: ['layout', 'frag', 'fraginit', 'meta'],
               rule='a case is an emitted byte stream (progressive file, init segment, media segment) with a distinct configuration/history; every one is non-trivial'),
-    'C07': _p(lambda t: ['layout', 'fraginit', 'fncfg', 'codeccfg'],
+    'C07': _p(lambda t: ['layout', 'fraginit', 'fncfg', 'fnobu', 'codeccfg'],
               rule='a case is a distinct first key frame / builder parameter-set tuple / configuration (codec x dimensions x audio rate x channels); non-trivial when it is accepted and a file or init segment is produced'),
     'C19': _p(lambda t: ['layout', 'fraginit', 'frag'],
               rule='a case is an emitted byte stream with a distinct configuration (codec x audio x metadata x layout x dimensions / init segment / media segment); every one is non-trivial'),
